@@ -210,6 +210,16 @@ func (s *v14Session) evaluate() {
 			root = key
 		}
 	}
+	if cf.SrvMaxStreams > 0 && root == "" {
+		for _, st := range w.streams {
+			if st.rstBy == 2 && st.rstCode == 1 && st.blocks[0] == 1 && st.openAtRst < int(cf.SrvMaxStreams) && !hasW("wire-") {
+				root = "server-refuses-stream-within-its-own-stream-limit"
+				s.viol(root, "the server reset stream %d with PROTOCOL_ERROR right after its request HEADERS although only %d other request streams were open on the wire at that moment and it advertises SETTINGS_MAX_CONCURRENT_STREAMS=%d: it had just sent END_STREAM on another stream (the client had ended that one before) and still counted it (the count goes down when the serve loop handles the completion of the write, the client's next HEADERS can be read first); the Transport then also marks the connection as not to be reused, so later requests on it fail with \"client conn not usable\"\nsession: %+v\nlast frames:%s",
+					st.id, st.openAtRst, cf.SrvMaxStreams, *cf, w.history())
+				break
+			}
+		}
+	}
 	for i := 0; i < s.started; i++ {
 		e := s.ex[i]
 		g := got[i]
